@@ -3,7 +3,7 @@
    of the property, over the property's own alphabet).  No proofs here. *)
 From Coq Require Import NArith ZArith List Bool.
 From KT Require Import Gen.Generated Gen.Alphabet Model.Kmer Model.Show.
-From KT Require Import Proof.RevComp Proof.PosMap Proof.MinAbs Proof.MinSpec Proof.MinConc Proof.MinFast Proof.KmMin Proof.Oligo.
+From KT Require Import Proof.RevComp Proof.PosMap Proof.MinAbs Proof.MinSpec Proof.MinConc Proof.MinFast Proof.KmMin Proof.Oligo Proof.Pull.
 Import ListNotations.
 Open Scope N_scope.
 
@@ -24,7 +24,9 @@ Definition show_Ns (l : list N) : list N := join comma (map dec l).
 Definition show_nats (l : list nat) : list N := join comma (map dec_nat l).
 
 (* ---------- C01 ---------- *)
-Definition m_kg (k : nat) (s : list N) : list N := show_pairs (kg_run nt4k k s).
+(* the model line is the pull-based iterator object of Proof/Pull.v drawn with next() until None (kg_collect_run:
+   equal to the fold kg_run, which the theorems speak about) *)
+Definition m_kg (k : nat) (s : list N) : list N := show_pairs (kg_collect nt4k k (length s + 2) (mkst 0 0 0, 0%nat, s)).
 Definition s_kg (k : nat) (s : list N) : list N := show_pairs (spec_kmers digit_of_letter k s).
 
 (* ---------- C02 ---------- *)
@@ -51,9 +53,9 @@ Definition m_header (k : nat) : list N := join comma (map (kmer_text k) (min_mer
 Definition s_header (k : nat) : list N := join comma (map (s_dec k) (canon_list k)).
 
 (* ---------- C09 / C18 ---------- *)
-Definition m_mg (w m : nat) (s : list N) : list N := show_runs (mg_run nt4m w m s).
+Definition m_mg (w m : nat) (s : list N) : list N := show_runs (mg_collect nt4m w m (length s + 2) (mg_init, 0%nat, s)).
 Definition s_mg (w m : nat) (s : list N) : list N := show_runs (spec_runs_fast digit_of_letter w m s).
-Definition m_kmg (w m : nat) (s : list N) : list N := show_kruns (kmg_run nt4km w m s).
+Definition m_kmg (w m : nat) (s : list N) : list N := show_kruns (kmg_collect nt4km w m (length s + 2) (kmg_init, 0%nat, s)).
 (* spec: the property fixes the runs and the concatenation of the attached lists, not how the w-mers are
    dealt out to the runs; rendered as  runs|k1+k2+...  (the comparison flattens the implementation's output
    the same way) *)
